@@ -590,7 +590,7 @@ impl<'g, 'a> Fx<'g, 'a> {
             };
             let body = self.value(&arm.body, dest)?;
             self.scopes.pop();
-            let body = seq(seqs(binds.clone()), body);
+            let body = if arm.guard.is_some() { body } else { seq(seqs(binds.clone()), body) };
             acc = Some(match cond {
                 None => {
                     if !binds.is_empty() && arm.guard.is_some() {
